@@ -80,6 +80,14 @@ def _mk_cases(seed, shard, count):
             cases.append(("valid", data))
             if rng.random() < 0.15:
                 cases.append(("twin-of-prev:valid", gen.encode(dict(msg, order="B" if msg["order"] == "l" else "l"))))
+            if rng.random() < 0.12 and len(data) >= 32:
+                # a loader with a configured maximum message size around this message's length (and around the sizes of
+                # its parts): the message is accepted exactly when its total length is within the limit
+                fl = struct.unpack_from("<I" if data[:1] == b"l" else ">I", data, 12)[0]
+                bl = struct.unpack_from("<I" if data[:1] == b"l" else ">I", data, 4)[0]
+                lim = rng.choice([len(data) - 1, len(data), len(data) + 1, max(fl, bl) + 1, fl + bl, len(data) - 8, len(data) // 2 + 1])
+                if lim > 16:
+                    cases.append(("limit:%d" % lim, data))
         elif r < 0.45:
             m2, cls = gen.structural_variant(rng, msg)
             cases.append((cls, gen.encode(m2)))
@@ -233,6 +241,9 @@ def _worker(args):
         if cls.startswith("fds:"):
             lines.append("F %s %s -" % (cls[4:], hx))    # placeholder keeps two lines per case
             lines.append("F %s %s 1,15,3" % (cls[4:], hx))
+        elif cls.startswith("limit:"):
+            lines.append("L %s %s -" % (cls[6:], hx))
+            lines.append("L %s %s 1,15,3" % (cls[6:], hx))
         else:
             lines.append("D " + hx)
             lines.append("L 0 %s -" % hx)
@@ -244,6 +255,24 @@ def _worker(args):
             _judge_one(part, cls, data, "SKIP", res[2 * i], nfds=nf)
             _judge_one(part, cls + ":chunked", data, "SKIP", res[2 * i + 1], nfds=nf)
             part.count("fd-loader-cases")
+            continue
+        if cls.startswith("limit:"):
+            lim = int(cls[6:])
+            for which, lr in (("unsplit", res[2 * i]), ("chunked", res[2 * i + 1])):
+                if not isinstance(lr, dict) or "crash" in lr:
+                    _judge_one(part, cls, data, "SKIP", lr)
+                    continue
+                got = len(lr.get("msgs", []))
+                part.count("loader-limit-cases")
+                part.sig("limit", "within" if len(data) <= lim else "over", got, bool(lr.get("corrupt")))
+                if len(data) <= lim and (got != 1 or lr.get("corrupt")):
+                    part.violation("%s:rejected-but-valid:within-configured-limit" % PROP,
+                                   "valid message of %d bytes rejected by a loader whose maximum message size is %d (%s)" % (len(data), lim, which),
+                                   {"class": cls, "hex": data.hex()[:4096], "limit": lim, "reason": lr.get("reason")})
+                elif len(data) > lim and (got or not lr.get("corrupt")):
+                    part.violation("%s:accepted-but-invalid:over-configured-limit" % PROP,
+                                   "message of %d bytes accepted by a loader whose maximum message size is %d (%s)" % (len(data), lim, which),
+                                   {"class": cls, "hex": data.hex()[:4096], "limit": lim})
             continue
         _judge_one(part, cls, data, res[2 * i], res[2 * i + 1])
         if cls.startswith("twin-of-prev:") and i > 0:
